@@ -89,6 +89,14 @@ T = {
  (4, "C12"): ("Polygon.__init__ stores the caller's normal un-normalised", "explicit normal of length != 1, then a form factor", ["C15"], "caught by C15 'normal = requested' (unit); C12's polygons use default normals"),
  (4, "C13"): ("Ellipsoid.maximal_bounded_sphere uses min(a, b)", "c strictly smallest", ["C13"], ""),
  (4, "C14"): ("spheropolygon: |v12| taken as roll(|v32|, -1) instead of roll(.., 1)", "core whose edge-length sequence is not invariant under a shift by two", ["C14"], ""),
+ (4, "C15"): ("duplicate-vertex test narrowed to cyclic neighbours", "a point listed twice at non-adjacent positions (outline touching itself at a vertex)", ["C15"], ""),
+ (4, "C16"): ("ConvexPolygon.distance_to_surface wraps the caller's float64 angle array in place (np.asarray + np.mod(out=))", "float64 ndarray of angles with a value outside [0, 2 pi)", ["C16"],
+              "caught because the C16 query passes an angle outside [0, 2 pi) (-3 pi / 4, added in this round when pi/2 was replaced)"),
+ (4, "C17"): ("Family523.get_shape upper bound on a uses S (golden ratio) instead of s", "a in (1.382, 3.618]", ["C17"], ""),
+ (4, "C18"): ("ConvexPolyhedron.sort_faces keeps a face whose index order turns left at every corner (also true of pentagrams)", "a face with >= 5 vertices whose ascending-index order is a star", ["C18"], ""),
+ (4, "C19"): ("ConvexSpheropolyhedron.to_hoomd centres the vertices on the vertex mean", "core whose vertex mean differs from its centroid", ["C19"],
+              "first missed (the base spheropolyhedron had a box core: vertex mean = centroid), caught after the base shape became a square pyramid"),
+ (4, "C20"): ("to_x3d 'winding guard' reverses faces whose plane has the origin on the outer side", "X3D / HTML export of a polyhedron that does not contain the origin", ["C20"], ""),
 }
 for (wave, pid), (what, needs, checks, note) in sorted(T.items()):
     d = os.path.join(ROOT, "seeded%d" % wave, pid)
